@@ -4,14 +4,15 @@ import SemVerif.SemTypes
 -/
 namespace SemVerif
 
+/-- put a character in front of the first part -/
+def consHead (c : Char) : List Name → List Name
+  | [] => [[c]]            -- unreachable: `splitDot` never returns `[]`
+  | p :: ps => (c :: p) :: ps
+
 /-- `str::split('.')` : always at least one part -/
 def splitDot : Name → List Name
   | [] => [[]]
-  | c :: cs =>
-    if c = '.' then [] :: splitDot cs
-    else match splitDot cs with
-      | [] => [[c]]            -- unreachable: `splitDot` never returns `[]`
-      | p :: ps => (c :: p) :: ps
+  | c :: cs => if c = '.' then [] :: splitDot cs else consHead c (splitDot cs)
 
 def isDigit (c : Char) : Bool := 48 ≤ c.toNat && c.toNat ≤ 57
 
@@ -20,15 +21,16 @@ def digitsVal : List Char → Nat → Nat
   | c :: cs, acc => digitsVal cs (acc * 10 + (c.toNat - 48))
 
 /-- `str::parse::<u64>().unwrap_or_default()`: optional leading `+`, at least one ASCII digit,
-nothing else; anything unparsable or ≥ 2^64 gives 0 -/
+nothing else; anything unparsable gives 0.  The `u64` range is *not* modelled (a suffix ≥ 2^64
+parses to 0 in Rust, and `u64::MAX + 1` overflows): the domain keeps suffixes below 2^32. -/
+def stripPlus : Name → Name
+  | '+' :: rest => rest
+  | s => s
+
 def parseU64 (s : Name) : Nat :=
-  let ds := match s with
-    | '+' :: rest => rest
-    | _ => s
+  let ds := stripPlus s
   if ds.isEmpty || !ds.all isDigit then 0
-  else
-    let v := digitsVal ds 0
-    if v < 18446744073709551616 then v else 0
+  else digitsVal ds 0
 
 /-- `BlockState::set_attr_counter` -/
 def setAttrCounter (val : Name) : Name :=
